@@ -165,6 +165,10 @@ def const_eval(project, mod, node, cls=None, depth=0, record_fields=None):
             if any(v is None for v in vals.values()) or set(vals) != {nm for nm, _ in fields}:
                 return None
             return ('record', q, tuple((nm, vals[nm]) for nm, _ in fields))
+        if q in ('types.MappingProxyType', 'builtins.dict') and len(node.args) == 1 and not node.keywords:
+            inner = rec(node.args[0])          # a read-only view of / a copy of a literal dictionary: the dictionary
+            if inner is not None and tag(inner) == 'dict':
+                return inner
         if q in ('builtins.tuple', 'builtins.frozenset', 'builtins.list') and len(node.args) == 1 and not node.keywords:
             inner = rec(node.args[0])
             if inner is not None and tag(inner) in ('tuple', 'list', 'set'):
